@@ -131,6 +131,7 @@ func dirName(d int) string {
 //	ovl    conv I P      ... as two segments [0,P) [P-1,len) (one byte sent twice)
 //	swap   conv I        packets I and I+1 of the conversation exchange their capture positions
 //	retx   conv I P Mode a copy (full | head | tail half) of data packet I follows packet P (P>=I)
+//	ka     conv I        a keep-alive probe (one garbage byte at the sequence number of the last byte sent) follows data packet I
 //	dup    conv I P      an exact copy of the SYN, SYN-ACK or FIN segment I follows packet P (P = I or I+1)
 //	tie    -    I        packet I+1 of the whole capture carries the same timestamp as packet I
 //	frag   conv I P Mode IPv4 packet I (with payload) travels as two IP fragments, the second starting at
@@ -154,6 +155,8 @@ func (d Dev) String() string {
 		return fmt.Sprintf("retx(c%d.%d>%d,%s)", d.Conv, d.I, d.P, d.Mode)
 	case "tie":
 		return fmt.Sprintf("tie(%d)", d.I)
+	case "ka":
+		return fmt.Sprintf("ka(c%d.%d)", d.Conv, d.I)
 	case "dup":
 		return fmt.Sprintf("dup(c%d.%d>%d)", d.Conv, d.I, d.P)
 	case "frag":
@@ -360,6 +363,10 @@ var trafficSets = []*ConvSet{
 	{Name: "tcp6", Interleaves: single, Convs: []ConvSpec{
 		// client sequence numbers wrap around inside the first message, connection stays open
 		tcp("t", "fd00::1", 40020, "fd00::2", 443, 0xfffffffd, 0xffffffff, "", cm("hello"), sm("wor"), cm("ld")),
+	}},
+	// single-byte segments in a row (an interactive session)
+	{Name: "tcp-tiny", Interleaves: single, Convs: []ConvSpec{
+		tcp("t", "10.0.0.1", 40030, "10.0.0.2", 23, 7000, 9000, "fin-c", cm("l"), cm("s"), cm("\n"), sm("a"), sm("b"), cm("q")),
 	}},
 	{Name: "udp4", Interleaves: single, Convs: []ConvSpec{
 		udp("u", "10.0.1.1", 5353, "10.0.1.2", 53, cm("qry"), sm("answ"), cm("q2")),
@@ -652,6 +659,20 @@ func applyConvDev(list []*Pkt, d Dev) ([]*Pkt, error) {
 		out := append([]*Pkt{}, list[:d.P+1]...)
 		out = append(out, c)
 		return append(out, list[d.P+1:]...), nil
+	case "ka":
+		// a keep-alive probe behind data packet I: one garbage byte at the sequence number of the last byte sent
+		if p.UDP || len(p.Payload) == 0 || p.SYN || p.closing() || p.FragPart != 0 || p.Retx {
+			return nil, fmt.Errorf("%v: no data packet to probe behind", d)
+		}
+		c := cp(p)
+		c.Retx = true
+		c.Gap = 0
+		c.PSH = false
+		c.Seq = p.Seq + uint32(len(p.Payload)) - 1
+		c.Payload = []byte{0}
+		out := append([]*Pkt{}, list[:d.I+1]...)
+		out = append(out, c)
+		return append(out, list[d.I+1:]...), nil
 	case "dup":
 		// an exact copy of a handshake or closing segment (a retransmitted SYN, SYN-ACK or FIN) follows packet P
 		if p.UDP || !(p.SYN || p.FIN) || p.RST || d.P < d.I || d.P > d.I+1 || d.P >= len(list) || p.FragPart != 0 || p.Retx {
@@ -710,6 +731,11 @@ func enumConvDevs(list []*Pkt, conv int) []Dev {
 		d := Dev{Kind: "swap", Conv: conv, I: i}
 		if _, err := applyConvDev(list, d); err == nil {
 			out = append(out, d)
+		}
+		if d := (Dev{Kind: "ka", Conv: conv, I: i}); true {
+			if _, err := applyConvDev(list, d); err == nil {
+				out = append(out, d)
+			}
 		}
 		for pos := i; pos <= i+1; pos++ {
 			d := Dev{Kind: "dup", Conv: conv, I: i, P: pos}
